@@ -11,7 +11,7 @@ use blots_core::values::SerializableValue;
 use proptest::prelude::*;
 use serde::{Deserialize, Serialize};
 
-pub const RULE: &str = "paths: finite doubles (uniform bit patterns, boundary pool, powers of 2 and 10 +-1 ulp, integers k +-1 ulp, the 1e15 / 1e21 printing thresholds, 2^53 neighbourhood, subnormals, f64::MAX, -0) through to_number(to_string(x)), JSON output->input, closure capture -> emitted source -> reload -> call, and literal -> format_expr (several widths) -> parse; all compared by bit pattern. literals: spellings of the exact decimal value of a double (underscore groups, shifted point with compensating exponent, e/E, signed exponent, leading dot, leading zeros, leading +), exact midpoints between adjacent doubles and midpoint +- tiny, short mantissas (1..19 digits) with exponents up to +-330 (reference: Rust's correctly rounded parser), and 0x / 0b literals with underscores, evaluated as literals and read by to_number, compared with the correctly rounded reference double (computed by construction with exact decimal arithmetic / u128). Non-trivial = the double is not an integer below 2^53, or the spelling uses >= 2 optional features; distinct by bit pattern / literal text.";
+pub const RULE: &str = "paths: finite doubles (uniform bit patterns, boundary pool, powers of 2 and 10 +-1 ulp, integers k +-1 ulp, the 1e15 / 1e21 printing thresholds, 2^53 neighbourhood, subnormals, f64::MAX, -0) through to_number(to_string(x)), JSON output->input, closure capture -> emitted source -> reload -> call, and literal -> format_expr (several widths) -> parse; all compared by bit pattern. literals: spellings of the exact decimal value of a double (underscore groups, shifted point with compensating exponent, e/E, signed exponent, leading dot, leading zeros, leading +), exact midpoints between adjacent doubles and midpoint +- tiny, short mantissas (1..19 digits) with exponents up to +-330 (reference: Rust's correctly rounded parser), and 0x / 0b literals with underscores, evaluated as literals and read by to_number, compared with the correctly rounded reference double (computed by construction with exact decimal arithmetic / u128). Lists of numbers (runs with a constant step of length 2..33 starting at whole, fractional and -0 values; short numbers around one very long or very small one; random lists of 2..40) go through closure capture -> emitted source -> reload and through list literal -> format_expr at six widths -> evaluation, compared position by position by bit pattern. Non-trivial = the double is not an integer below 2^53, or the spelling uses >= 2 optional features; distinct by bit pattern / literal text.";
 pub const ASSUMPTIONS: &[&str] = &[
     "Rust's exact float formatting and the harness decimal arithmetic are the trusted base for reference values",
     "radix literals >= 2^63 may be rejected with an error (the implementation parses through i64) but must never evaluate to a wrong value",
@@ -25,6 +25,9 @@ pub enum Case {
     Literal { text: String, expect: F, features: u32 },
     /// literal must evaluate to `expect` or be rejected with an error
     LiteralOrError { text: String, expect: F },
+    /// numbers as items of one list: captured by a closure and emitted, and written as a list
+    /// literal and formatted at several widths; each position must keep its number
+    Lists(Vec<F>),
 }
 
 pub struct Numbers;
@@ -131,6 +134,65 @@ impl Check for Numbers {
                     let y = parse_expr(&out).ok().and_then(|a| find_number(&a));
                     if y.map(|y| y.to_bits()) != Some(x.to_bits()) {
                         fail!(format!("format:{}", cls), "formatter prints the number {:e} [bits {:016x}] as {:?}, which reads back as {:?}", x, x.to_bits(), out, y);
+                    }
+                }
+                Ok(())
+            }
+            Case::Lists(xs) => {
+                ctx.label("numbers-in-a-list");
+                if xs.len() >= 16 {
+                    ctx.label("list>=16-numbers");
+                }
+                ctx.nontrivial(crate::engine::hash_str(&format!("{:?}", xs)));
+                let want: Vec<u64> = xs.iter().map(|f| f.0.to_bits()).collect();
+                let bits_of = |o: &crate::blots::Obs| -> Option<Vec<u64>> {
+                    match o {
+                        Ok(MV::List(v)) => v.iter().map(|m| if let MV::Num(F(y)) = m { Some(y.to_bits()) } else { None }).collect(),
+                        _ => None,
+                    }
+                };
+                let sess = Sess::new();
+                sess.bind("xs", &MV::List(xs.iter().map(|f| MV::Num(*f)).collect()));
+                // closure capture -> emitted source -> reload -> call
+                let f = match sess.eval_src("() => xs") {
+                    Ok(v) => v,
+                    Err(e) => fail!("emit:harness", "cannot build closure: {}", e),
+                };
+                let sv = match SerializableValue::from_value(&f, &sess.heap.borrow()) {
+                    Ok(sv) => sv,
+                    Err(e) => fail!("emit-list:not-serialised", "closure capturing a list of numbers does not serialise: {}", e),
+                };
+                let jtext = serde_json::to_string(&sv.to_json()).unwrap();
+                let s2 = Sess::new();
+                let reloaded = serde_json::from_str::<serde_json::Value>(&jtext)
+                    .map_err(|e| e.to_string())
+                    .and_then(|v| crate::blots::from_json(&v).to_value(&mut s2.heap.borrow_mut()).map_err(|e| e.to_string()));
+                match reloaded {
+                    Ok(v) => {
+                        s2.bind_value("f", v);
+                        let got = s2.probe("f()");
+                        if bits_of(&got).as_ref() != Some(&want) {
+                            fail!("emit-list:changed", "a closure capturing the list {:?} is emitted as {} and returns {:?} after reload", xs.iter().map(|f| f.0).collect::<Vec<_>>(), short(&jtext), got);
+                        }
+                    }
+                    Err(e) => fail!("emit-list:not-reloaded", "closure capturing a list of numbers is emitted as {} which does not reload: {}", short(&jtext), e),
+                }
+                // list literal -> formatter (several widths) -> parser -> evaluation
+                let items: Vec<String> = xs.iter().map(|f| if f.0.is_sign_negative() { format!("-{}", crate::model::mv::num_source(-f.0, false)) } else { crate::model::mv::num_source(f.0, false) }).collect();
+                let lit = format!("v = [{}]", items.join(", "));
+                let direct = Sess::new().probe(&lit);
+                if bits_of(&direct).as_ref() != Some(&want) {
+                    fail!("literal-list:harness", "{:?} evaluates to {:?}", short(&lit), direct);
+                }
+                let ast = match parse_expr(&lit) {
+                    Ok(a) => a,
+                    Err(e) => fail!("literal-list:harness", "{:?} does not parse: {}", short(&lit), e),
+                };
+                for w in [None, Some(1usize), Some(12), Some(40), Some(80), Some(200)] {
+                    let out = blots_core::formatter::format_expr(&ast, w);
+                    let got = Sess::new().probe(&out);
+                    if bits_of(&got).as_ref() != Some(&want) {
+                        fail!("format-list:changed", "the list {:?} is formatted (width {:?}) as\n{}\nwhich evaluates to {:?}", xs.iter().map(|f| f.0).collect::<Vec<_>>(), w, out, got);
                     }
                 }
                 Ok(())
@@ -461,6 +523,26 @@ pub fn run(ctx: &mut Ctx) {
     }
     ctx.run_enum(&Numbers, mids.into_iter(), false);
     ctx.run_random(&Numbers, path_doubles().prop_map(Case::Paths), ctx.tier.pick(60_000, 2_000_000));
+    // numbers as list items: runs with a constant step (whole, fractional, from -0), and random lists
+    let mut lists = Vec::new();
+    for start in [0.0f64, -0.0, 0.5, -7.25, 1.0, 3.0, 1e15, 0.1, -16.0, 9007199254740980.0] {
+        for step in [1.0f64, 0.5, -1.0, 2.0] {
+            for len in [2usize, 15, 16, 17, 20, 33] {
+                lists.push(Case::Lists((0..len).map(|i| F(start + step * i as f64)).collect()));
+            }
+        }
+    }
+    for big in [1e100f64, 1.5e300, 1e21, 123456789012345680000.0, 5e-324, 1.5e-300, 1e-7] {
+        for at in [0usize, 1, 2, 5, 11] {
+            for len in [3usize, 6, 12, 30] {
+                if at < len {
+                    lists.push(Case::Lists((0..len).map(|i| if i == at { F(big) } else { F(i as f64 + 1.0) }).collect()));
+                }
+            }
+        }
+    }
+    ctx.run_enum(&Numbers, lists.into_iter(), false);
+    ctx.run_random(&Numbers, prop::collection::vec(prop_oneof![3 => path_doubles(), 1 => crate::gen_::small_f64().prop_map(F)], 2..40).prop_map(Case::Lists), ctx.tier.pick(4_000, 100_000));
     ctx.run_random(&Numbers, decimal_literals(), ctx.tier.pick(40_000, 1_200_000));
     ctx.run_random(&Numbers, radix_literals(), ctx.tier.pick(20_000, 600_000));
     ctx.run_random(&Numbers, short_mantissa_literals(), ctx.tier.pick(40_000, 1_200_000));
